@@ -47,7 +47,7 @@ def gen_random(rng, max_c=8):
         avail += [['s', i] for i in secondary if first_reader[i] <= j]
         numeric = [r for r in avail if r[0] == 's' and sblocks[r[1]]['kind'] == 'counter']
         numeric += [r for r in avail if r[0] == 'c' and cblocks[r[1]]['fn'] == 'f'
-                    and cblocks[r[1]]['script'] in ('cnt', 'glen')]
+                    and cblocks[r[1]]['script'] in ('cnt', 'glen', 'big')]
 
         def ref():
             r = rng.random()
@@ -75,9 +75,9 @@ def gen_random(rng, max_c=8):
             cb['low'], cb['high'] = lo, lo + rng.choice([0, 1, 2, 0.5])
             cb['pos'] = [list(rng.choice(numeric))]
         else:
-            cb['script'] = rng.choice(['cnt', 'sel', 'glen'])
+            cb['script'] = rng.choice(['cnt', 'sel', 'glen', 'big'])
             cb['unpack'] = rng.random() < 0.5
-            if cb['script'] == 'cnt':
+            if cb['script'] in ('cnt', 'big'):
                 cb['pos'] = [ref() for _ in range(rng.randint(1, 3))]
             elif cb['script'] == 'sel':
                 cb['named'] = {'c': ref(), 'x': ref(), 'y': ref()}
@@ -149,7 +149,7 @@ def ctor_scenarios(rng, tier):
     """constructor calls: Compare(low, high) over a grid incl. low == high and high < low, FuncBlock with
     unpack given / omitted, Override with null_value given / omitted"""
     ctors = [['cmp', lo, hi] for lo in CTOR_VALUES for hi in CTOR_VALUES]
-    ctors += [['func', sc, u] for sc in ('cnt', 'sel', 'glen') for u in (None, True, False)]
+    ctors += [['func', sc, u] for sc in ('cnt', 'sel', 'glen', 'big') for u in (None, True, False)]
     ctors += [['ovr']] + [['ovr', v] for v in (None, 0, False, 'x', 1, '', [1, 2])]
     rng.shuffle(ctors)
     for i in range(0, len(ctors), 12):
